@@ -57,6 +57,7 @@ class C20(Oracle):
                 self.fail("timetable-date-drift", "node %s %s %d at %r, timetable %r" % (nid, R.ev_type, k, t, exp))
 
     def segment_end(self, op):
+        self.check_streams()
         R = self.R
         sim = R.sim
         draws = {}
